@@ -102,21 +102,28 @@ pub fn record_c01(out: &str, proc_id: usize, nitems: usize) {
     let mut put = |f: &mut std::io::BufWriter<std::fs::File>, key: String, pos: usize, n: u64, res: String| {
         writeln!(f, "{}", json!({"key": fnv(&key), "p": proc_id, "n": n, "pos": pos, "r": fnv(&res)})).unwrap();
     };
+    let plus = v::parse_aliases(&[], &["[] > +Q".to_string()]).expect("plus alias");
     // (1) the renderer on every base and base + one diacritic target (this is where the per-process map order used to matter)
     for (bi, (_, base)) in t.cards.iter().enumerate() {
         for di in 0..=t.dias.len() {
             let mut s = *base;
             if di > 0 { let d = &t.dias[di - 1]; if !d.prereqs.iter().all(|(n, i, p)| mod_matches(&s, *n, *i, *p)) { continue; } apply_payload(&mut s, &d.payload); }
             for rep in 0..2 { ncall += 1; sum.vectors += 1; put(&mut f, format!("render {:?}", seg_arr(&s)), bi, ncall + rep, s.get_as_grapheme().unwrap_or("<none>".into())); }
+            // the same segment through a `+` romaniser (the nearest-grapheme path of the alias renderer)
+            ncall += 1; sum.vectors += 1;
+            put(&mut f, format!("render+ {:?}", seg_arr(&s)), bi, ncall, v::render_word(&v::make_word(&[(vec![s], 0, 0)], false), &plus));
         }
     }
     // (2) run / trace on rule lists x word lists: the list, the list again, a permutation, singletons
     for _ in 0..nitems {
         let item = gen_item(&c, &mut rng);
         let gkey = format!("{:?}|{:?}", item.groups.iter().map(|g| (g.name.clone(), g.rule.clone())).collect::<Vec<_>>(), item.into);
+        const FROMS: [&[&str]; 4] = [&[], &["[+cons, +son, -voice] > +h", "$ > *"], &["V:[+long] > +\u{304}", "C:[-voi] > +\u{325}"], &["[+cons] > +x"]];
+        let from: Vec<String> = FROMS[rng.below(4)].iter().map(|s| s.to_string()).collect();
+        let gkey = format!("{gkey}|{:?}", from);
         let run = |lines: &[String]| -> Result<Vec<String>, String> {
-            let (g, l, i) = (item.groups.clone(), lines.to_vec(), item.into.clone());
-            match v::record(2_000_000, false, false, move || asca::run(&g, &l, &i, &[])).result { Ok(Ok(o)) => Ok(o), Ok(Err(e)) => Err(err_key(&e)), Err(p) => Err(format!("PANIC {}", panic_text(&p))) }
+            let (g, l, i, fr) = (item.groups.clone(), lines.to_vec(), item.into.clone(), from.clone());
+            match v::record(60_000, false, false, move || asca::run(&g, &l, &i, &fr)).result { Ok(Ok(o)) => Ok(o), Ok(Err(e)) => Err(err_key(&e)), Err(p) => Err(format!("PANIC {}", panic_text(&p))) }
         };
         let singles: Vec<Result<Vec<String>, String>> = item.lines.iter().map(|l| run(&[l.clone()])).collect();
         let all_ok = singles.iter().all(|s| s.is_ok());
@@ -139,7 +146,7 @@ pub fn record_c01(out: &str, proc_id: usize, nitems: usize) {
         for (pos, l) in item.lines.iter().enumerate() {
             ncall += 1; sum.vectors += 1;
             let (g, l2, i) = (item.groups.clone(), l.clone(), item.into.clone());
-            let r = match v::record(2_000_000, false, false, move || asca::get_trace_string(&g, l2, &i)).result { Ok(Ok(o)) => o.join("\n"), Ok(Err(e)) => format!("ERR {}", err_key(&e)), Err(p) => format!("PANIC {}", panic_text(&p)) };
+            let r = match v::record(60_000, false, false, move || asca::get_trace_string(&g, l2, &i)).result { Ok(Ok(o)) => o.join("\n"), Ok(Err(e)) => format!("ERR {}", err_key(&e)), Err(p) => format!("PANIC {}", panic_text(&p)) };
             put(&mut f, format!("trace {gkey} {l}"), pos, ncall, r);
         }
     }
